@@ -60,6 +60,15 @@ func craftedShapes() []crafted {
 				{Kind: "index", Edges: []vh.Edge{e("manifest", 3), e("manifest", 4)}}},
 			Ext: []int{3, 1, 2},
 		},
+		{ // a manifest whose layer list is [foreign, ordinary, foreign]: the foreign layers (not in the source) are skipped,
+			// the ordinary one between them is not
+			Name: "foreignmix",
+			Nodes: []vh.NodeSpec{{}, blob, blob,
+				{Kind: "foreign", Edges: []vh.Edge{}}, {Kind: "foreign", Edges: []vh.Edge{}},
+				{Kind: "manifest", Edges: []vh.Edge{e("config", 1), e("layer", 3), e("layer", 2), e("layer", 4)}},
+				{Kind: "index", Edges: []vh.Edge{e("manifest", 5)}}},
+			Ext: []int{2},
+		},
 		{ // nested indexes with a blob listed twice and a shared config
 			Name: "nested",
 			Nodes: []vh.NodeSpec{{}, blob, blob,
